@@ -1814,18 +1814,25 @@ impl PhysicalPlanner {
                     .collect();
                 let physical_inputs = physical_inputs?;
 
-                let union_exec: Arc<dyn PhysicalOperator> =
-                    Arc::new(UnionExec::new(physical_inputs));
+                let union_exec = UnionExec::new(physical_inputs);
 
                 // If not UNION ALL, we need to remove duplicates using GROUP BY on all columns
                 if !node.all {
-                    // Create aggregate for distinct - group by all columns with no aggregates
+                    // Create aggregate for distinct - group by all columns with no aggregates.
+                    // The grouping is POSITIONAL: `SELECT a, a ... UNION ...`
+                    // has two columns of one name, and grouping by name
+                    // grouped the first of them twice. The union hands its
+                    // columns up under unique internal labels; the aggregate's
+                    // output schema restores the statement's names.
                     let schema = plan_schema_to_arrow(&node.schema);
-                    let group_by: Vec<Expr> = node
-                        .schema
-                        .fields()
+                    let labels: Vec<String> = (0..node.schema.fields().len())
+                        .map(|i| format!("__union_col_{i}"))
+                        .collect();
+                    let union_exec: Arc<dyn PhysicalOperator> =
+                        Arc::new(union_exec.with_column_names(labels.clone()));
+                    let group_by: Vec<Expr> = labels
                         .iter()
-                        .map(|f| Expr::Column(crate::planner::Column::new(f.name.clone())))
+                        .map(|n| Expr::Column(crate::planner::Column::new(n.clone())))
                         .collect();
 
                     if self.use_spillable() {
@@ -1848,7 +1855,7 @@ impl PhysicalPlanner {
                         Ok(Arc::new(agg))
                     }
                 } else {
-                    Ok(union_exec)
+                    Ok(Arc::new(union_exec))
                 }
             }
 
